@@ -55,6 +55,12 @@ def rand_dir(rng, static_only, names, tgts):
 def rand_script(rng, vals=()):
     vals = list(vals)
     ops, state, entered = [{"op": "all"}], {}, []
+    if vals and rng.random() < 0.4:
+        # a value recorded AFTER the span was created decides whether a value directive applies
+        v = rng.choice(vals)
+        ops += [{"op": "span", "h": 3, "lvl": rng.choice([3, 4, 5]), "tgt": rng.choice(TARGETS), "name": "s1", "k": "", "kt": ""},
+                {"op": "record", "h": 3, "k": v, "kt": recorded(rng, v)}, {"op": "enter", "h": 3}, {"op": "all"}, {"op": "exit", "h": 3}, {"op": "all"},
+                {"op": "close", "h": 3}]
     for _ in range(rng.randint(3, 12)):
         free = [h for h in (1, 2, 3) if h not in state]
         idle = [h for h in state if h not in entered]
